@@ -29,6 +29,7 @@ type Obligation struct {
 	Cover  bool     // cover obligation: expected SAT (reachability)
 	Func   string
 	Hints  []string
+	Assumed bool // named by an 'undecided' clause: counted, not discharged
 }
 
 func (o *Obligation) ok() bool {
@@ -768,6 +769,7 @@ func (f *frame) obligeAt(R, kind, key string, props []string, cond string, pos t
 				// listed among the assumptions of every property of the function
 				vc.assumed["obligation "+o.Name+" is not decided (assumed; clause 'undecided "+pat+"')"] = true
 				o.Cond = "true"
+				o.Assumed = true
 				break
 			}
 		}
